@@ -227,15 +227,25 @@ func newSource(obj client.Object) source {
 func newHTTPRouteSource(obj client.Object, spec *gatewayv1.HTTPRouteSpec) *httpRouteSource {
 	return &httpRouteSource{
 		spec:   spec,
-		source: newSource(obj),
+		source: newRouteSource(obj, "HTTPRoute"),
 	}
 }
 
 func newTCPRouteSource(obj client.Object, spec *gatewayv1alpha2.TCPRouteSpec) *tcpRouteSource {
 	return &tcpRouteSource{
 		spec:   spec,
-		source: newSource(obj),
+		source: newRouteSource(obj, "TCPRoute"),
 	}
+}
+
+// newRouteSource does not depend on the type meta of the object,
+// which typed clients and caches are free to leave empty
+func newRouteSource(obj client.Object, kind string) source {
+	s := newSource(obj)
+	if s.kind == "" {
+		s.kind = kind
+	}
+	return s
 }
 
 func (c *converter) newGatewaySource(namespace, name string, gwtyp client.Object) *gatewaySource {
@@ -370,7 +380,7 @@ func (c *converter) checkListenerAllowed(gatewaySource *gatewaySource, routeSour
 	if listener == nil || listener.AllowedRoutes == nil {
 		return errRouteNotAllowed
 	}
-	if err := checkListenerAllowedKind(routeSource, listener.AllowedRoutes.Kinds); err != nil {
+	if err := checkListenerAllowedKind(routeSource, listener.Protocol, listener.AllowedRoutes.Kinds); err != nil {
 		return err
 	}
 	if err := c.checkListenerAllowedNamespace(gatewaySource, routeSource, listener.AllowedRoutes.Namespaces); err != nil {
@@ -379,7 +389,20 @@ func (c *converter) checkListenerAllowed(gatewaySource *gatewaySource, routeSour
 	return nil
 }
 
-func checkListenerAllowedKind(routeSource *source, kinds []gatewayv1.RouteGroupKind) error {
+func checkListenerAllowedKind(routeSource *source, protocol gatewayv1.ProtocolType, kinds []gatewayv1.RouteGroupKind) error {
+	// "When unspecified or empty, the kinds of Routes selected are determined
+	// using the Listener protocol", and the ones listed must be compatible
+	// with it: a TCPRoute cannot share the port of the HTTP frontend.
+	var kind string
+	switch protocol {
+	case gatewayv1.HTTPProtocolType, gatewayv1.HTTPSProtocolType:
+		kind = "HTTPRoute"
+	case gatewayv1.TCPProtocolType:
+		kind = "TCPRoute"
+	}
+	if kind != "" && kind != routeSource.kind {
+		return fmt.Errorf("listener protocol '%s' does not allow route of Kind '%s'", protocol, routeSource.kind)
+	}
 	if len(kinds) == 0 {
 		return nil
 	}
